@@ -415,6 +415,7 @@ func TestC01Blocks(t *testing.T) {
 				}
 				_ = g.Aggregate(qframe.Aggregation{Fn: "sum", Column: "i1"}, qframe.Aggregation{Fn: hx.AggLastI, Column: "id", As: "lastid"}, qframe.Aggregation{Fn: "count", Column: "s1", As: "n"})
 				_ = g.Aggregate(qframe.Aggregation{Fn: "max", Column: "f1"})
+				_ = g.Aggregate(qframe.Aggregation{Fn: "sum", Column: "f1"}, qframe.Aggregation{Fn: "avg", Column: "f2"}, qframe.Aggregation{Fn: "min", Column: "i2"}, qframe.Aggregation{Fn: "majority", Column: "b1"})
 				for i, f := range frames {
 					if quickSnap(f) != before[i] {
 						panic(fmt.Sprintf("VIOLATION: group frame %d of GroupBy(%q).QFrames() changed while Aggregate ran on the grouper", i, cols))
